@@ -22,8 +22,32 @@ ClassNames == {"s", "S", "d", "D", "w", "W",
                "blank", "space", "digit", "xdigit", "upper", "lower",
                "alpha", "alnum", "word", "ascii"}
 
+\* Unicode categories (\p{..} / \P{..}): what they contain WITHIN ASCII (beyond ASCII nothing is asserted).  Only categories
+\* whose ASCII part is beyond doubt; Math, Emoji and Persian are left out.
+PoA == {33, 34, 35, 37, 38, 39, 42, 44, 46, 47, 58, 59, 63, 64, 92}
+PsA == {40, 91, 123}
+PeA == {41, 93, 125}
+SmA == {43, 60, 61, 62, 124, 126}
+SkA == {94, 96}
+UniNames == {"Lu", "Ll", "Lt", "Lm", "Lo", "L", "Letter", "Mn", "Mc", "Me", "M", "Mark", "Nd", "Nl", "No", "N", "Number",
+             "Pc", "Pd", "Ps", "Pe", "Pi", "Pf", "Po", "P", "Punctuation", "Sm", "Sc", "Sk", "So", "S", "Symbol",
+             "Zs", "Zl", "Zp", "Z", "Separator", "Latin", "Greek", "Cyrillic", "Han"}
+UniAscii(n) ==
+  CASE n = "Lu" -> Upper [] n = "Ll" -> Lower [] n \in {"L", "Letter", "Latin"} -> Alpha
+    [] n \in {"Nd", "N", "Number"} -> Digit
+    [] n = "Pc" -> {95} [] n = "Pd" -> {45} [] n = "Ps" -> PsA [] n = "Pe" -> PeA [] n = "Po" -> PoA
+    [] n \in {"P", "Punctuation"} -> {95, 45} \cup PsA \cup PeA \cup PoA
+    [] n = "Sm" -> SmA [] n = "Sc" -> {36} [] n = "Sk" -> SkA
+    [] n \in {"S", "Symbol"} -> SmA \cup {36} \cup SkA
+    [] n \in {"Zs", "Z", "Separator"} -> {32}
+    [] OTHER -> {}            \* Lt Lm Lo, the marks, Nl No, Pi Pf, So, Zl Zp, Greek, Cyrillic, Han: nothing in ASCII
+\* a class name "p:X" is \p{X}, "P:X" is \P{X}
+IsUni(n) == Len(n) > 2 /\ SubSeq(n, 1, 2) \in {"p:", "P:"}
+UniSet(n) == LET x == SubSeq(n, 3, Len(n)) IN IF SubSeq(n, 1, 2) = "p:" THEN UniAscii(x) ELSE Ascii \ UniAscii(x)
+
 ClassSet(n) ==
-  CASE n = "s"      -> SpaceS
+  CASE IsUni(n)     -> UniSet(n)
+    [] n = "s"      -> SpaceS
     [] n = "S"      -> Ascii \ SpaceS
     [] n = "d"      -> Digit
     [] n = "D"      -> Ascii \ Digit
